@@ -174,6 +174,7 @@ type DFS struct {
 	// Deadline check: returns true when the time budget is exhausted.
 	Expired func() bool
 
+	confirmed  map[string]bool
 	seen       map[uint64]int
 	shardCount int
 	expired    bool
@@ -207,6 +208,31 @@ func (d *DFS) build(hist []string, keys []string) (World, error) {
 		d.Stats.Replays++
 	}
 	return w, nil
+}
+
+// confirm replays hist on fresh worlds and requires the same violation signature every time; a violation
+// that does not reproduce is uncaptured nondeterminism of the harness, not a finding.
+func (d *DFS) confirm(hist []string, sig string) bool {
+	const runs = 4
+	hits := 0
+	for r := 0; r < runs; r++ {
+		w, err := d.build(hist, nil)
+		if err != nil {
+			continue
+		}
+		for _, v := range w.Check(hist) {
+			if v.Signature == sig {
+				hits++
+				break
+			}
+		}
+		w.Close()
+	}
+	if hits == runs {
+		return true
+	}
+	d.Stats.HarnessErrs = append(d.Stats.HarnessErrs, fmt.Sprintf("%s: violation %q after %q reproduced only %d/%d times; treated as uncaptured nondeterminism", d.Scenario, sig, HistKey(hist), hits, runs))
+	return false
 }
 
 // Run explores from the initial state.
@@ -254,7 +280,17 @@ func (d *DFS) explore(hist []string, keys []string, w World) {
 	for _, v := range w.Check(hist) {
 		v.Scenario = d.Scenario
 		v.History = append([]string{}, hist...)
-		d.Stats.Violate(v)
+		if d.confirmed == nil {
+			d.confirmed = map[string]bool{}
+		}
+		ok, done := d.confirmed[v.Signature]
+		if !done {
+			ok = d.confirm(hist, v.Signature)
+			d.confirmed[v.Signature] = ok
+		}
+		if ok {
+			d.Stats.Violate(v)
+		}
 	}
 	if d.Nontrivial != nil && d.Nontrivial(hist, w) {
 		d.Stats.NontrivialCase(d.Space + "|" + key)
